@@ -136,7 +136,19 @@ pub fn instantiate(c: &TcpLaw) -> Option<TcpObservation> {
         }
     };
     let d = s.db();
-    Some(TcpObservation { version, ittl, olen: s.olen, mss, wsize, wscale, olayout: d.olayout, quirks: d.quirks, pclass })
+    // the quirk field is a set: an instance may carry it in any order
+    let mut quirks = d.quirks;
+    if quirks.len() > 1 {
+        match ch(c, 8) % 3 {
+            1 => {
+                let k = ch(c, 9) as usize % quirks.len();
+                quirks.rotate_left(k)
+            }
+            2 => quirks.reverse(),
+            _ => {}
+        }
+    }
+    Some(TcpObservation { version, ittl, olen: s.olen, mss, wsize, wscale, olayout: d.olayout, quirks, pclass })
 }
 
 pub fn check_tcp_law(c: &TcpLaw, st: &mut Stats) -> Result<(), Fail> {
@@ -287,12 +299,13 @@ pub fn check_tcp_law(c: &TcpLaw, st: &mut Stats) -> Result<(), Fail> {
                 (dt::WindowSize::Mod(n), _) => dt::WindowSize::Mod(n.wrapping_add(1 + how % 100)),
                 (dt::WindowSize::Value(v), WinS::Value(_)) => dt::WindowSize::Value(v.wrapping_add(1 + how % 100)),
                 (dt::WindowSize::Value(v), WinS::Mss(n)) => {
-                    // raw value whose MSS ratio differs
+                    // another raw value: either a few bytes off (same floor ratio, no longer a multiple) or whole MSS steps off
                     let m = inst.mss.unwrap_or(1).max(1);
-                    let nv = v.wrapping_add(m.saturating_mul(1 + how % 3));
-                    if nv / m == n as u16 {
+                    let nv = if how % 2 == 0 { v.wrapping_add(1 + (how / 2) % 100) } else { v.wrapping_add(m.saturating_mul(1 + (how / 2) % 3)) };
+                    if nv as u32 == m as u32 * n as u32 {
                         return Ok(());
                     }
+                    st.class(if nv / m == n as u16 { "perturb:window-raw-same-floor-ratio" } else { "perturb:window-raw-other-ratio" });
                     dt::WindowSize::Value(nv)
                 }
                 _ => return Ok(()),
@@ -528,7 +541,7 @@ pub fn run(ctx: &Ctx) {
         }
     };
     let np = pool.len() as u64;
-    ctx.run_indexed("window-pairs", "all (observed form, signature form) pairs over a 23-value pool incl. boundaries x MSS in {none, 0, 1, 536, 1460, 65535}; laws: same form equal => 0, same form different => 2, signature `*` => 0, raw value vs mss*n => 0 iff value == MSS*n (floor division accepted), never anything but {0,2,rejected}", true, 4 * np * 5 * np, |i, st| {
+    ctx.run_indexed("window-pairs", "all (observed form, signature form) pairs over a 23-value pool incl. boundaries x MSS in {none, 0, 1, 536, 1460, 65535}; laws: same form equal => 0, same form different => 2, signature `*` => 0, raw value vs mss*n => 0 iff value == MSS*n exactly, never anything but {0,2,rejected}", true, 4 * np * 5 * np, |i, st| {
         let mut k = i;
         let of = k % 4; k /= 4;
         let ov = pool[(k % np) as usize]; k /= np;
@@ -547,7 +560,6 @@ pub fn run(ctx: &Ctx) {
                 }
                 (WinS::Value(v), WinS::Mss(n)) => match mss {
                     Some(m) if m > 0 && v as u32 == m as u32 * n as u32 => got == Some(0),
-                    Some(m) if m > 0 && v / m == n as u16 => got == Some(0) || got == Some(2),
                     _ => got == Some(2) || got.is_none(),
                 },
                 _ => got.is_none() || got == Some(2),
@@ -605,7 +617,7 @@ pub fn run(ctx: &Ctx) {
         "tcp-signature-laws",
         "proptest TCP signatures over the whole vocabulary x instantiator (wildcards filled with generated concrete values; TTL = ittl - hops 0..30; mss*n also as raw MSS*n) x one generated single-field perturbation; L1 instance => distance 0 / quality 1.0, L2 decisive field => rejected, L3 non-decisive => exactly the field penalty (olen 2, mss 2, wscale 1, ttl 2, window 2); non-trivial: signature has a wildcard that the instance fills",
         n,
-        || (sig::tcp_sig(), proptest::collection::vec(any::<u16>(), 8), (0u8..9, any::<u16>())).prop_map(|(sig, ch, pert)| TcpLaw { sig, ch, pert }),
+        || (sig::tcp_sig(), proptest::collection::vec(any::<u16>(), 10), (0u8..9, any::<u16>())).prop_map(|(sig, ch, pert)| TcpLaw { sig, ch, pert }),
         |c: &TcpLaw, st: &mut Stats| {
             st.sample(|| json!({"sig": format!("{}", c.sig.db()), "instance": instantiate(c).map(|o| format!("{o}")), "perturb": c.pert}));
             check_tcp_law(c, st)
